@@ -252,7 +252,7 @@ def iter : Nat → Disk × Proc → Disk × Proc
   | n + 1, x => iter n (stepProc x.1 x.2)
 
 theorem stepProc_done (d : Disk) (p : Proc) (h : p.isDone = true) : stepProc d p = (d, p) := by
-  obtain ⟨pc, beh, dry, sent⟩ := p
+  obtain ⟨pc, beh, dry, sent, tmp⟩ := p
   cases pc <;> simp [Proc.isDone] at h
   simp [stepProc]
 
@@ -321,9 +321,10 @@ def CallInv (h : Abs) (b : Beh) (d : Disk) (pr : Proc) : Prop :=
   | .assertCode0 held _ p => d = toDisk h ∧ held = h ∧ (∀ q, p = some q → b = .profile q)
   | .serverDate held p => d = toDisk h ∧ held = h ∧ (∀ q, p = some q → b = .profile q)
   | .assertDate held q => d = toDisk h ∧ held = h ∧ b = .profile q
-  | .openWb q => d = toDisk h ∧ (specStep h b).1 = some q
-  | .write q => d = some [] ∧ (specStep h b).1 = some q
-  | .close q => d = toDisk (some q) ∧ (specStep h b).1 = some q
+  | .mkstemp q => d = toDisk h ∧ (specStep h b).1 = some q
+  | .write q => d = toDisk h ∧ (specStep h b).1 = some q ∧ pr.tmp = some []
+  | .close q => d = toDisk h ∧ (specStep h b).1 = some q ∧ pr.tmp = some (ser q)
+  | .replace q => d = toDisk h ∧ (specStep h b).1 = some q ∧ pr.tmp = some (ser q)
   | .done _ => d = toDisk h ∨ d = toDisk (specStep h b).1
 
 theorem callInv_init (h : Abs) (b : Beh) : CallInv h b (toDisk h) (Proc.init b) := by
@@ -331,7 +332,7 @@ theorem callInv_init (h : Abs) (b : Beh) : CallInv h b (toDisk h) (Proc.init b) 
 
 theorem callInv_step (h : Abs) (b : Beh) (d : Disk) (pr : Proc) (hi : CallInv h b d pr) :
     CallInv h b (stepProc d pr).1 (stepProc d pr).2 := by
-  obtain ⟨pc, beh, dry, sent⟩ := pr
+  obtain ⟨pc, beh, dry, sent, tmp⟩ := pr
   obtain ⟨hb, hd, hpc⟩ := hi
   simp only at hb hd
   subst hb hd
@@ -378,17 +379,20 @@ theorem callInv_step (h : Abs) (b : Beh) (d : Disk) (pr : Proc) (hi : CallInv h 
     | none => simp [stepProc, specStep, accepts]
     | some r =>
       by_cases hle : r.date ≤ q.date <;> simp [stepProc, specStep, accepts, hle]
-  | openWb q =>
+  | mkstemp q =>
     simp only [CallInv] at hpc ⊢
-    simpa [stepProc] using hpc.2
+    simpa [stepProc] using hpc
   | write q =>
     simp only [CallInv] at hpc ⊢
-    obtain ⟨rfl, hq⟩ := hpc
-    simpa [stepProc, toDisk] using hq
+    obtain ⟨rfl, hq, rfl⟩ := hpc
+    simpa [stepProc] using hq
   | close q =>
     simp only [CallInv] at hpc ⊢
-    obtain ⟨rfl, hq⟩ := hpc
-    simp [stepProc, hq]
+    simpa [stepProc] using hpc
+  | replace q =>
+    simp only [CallInv] at hpc ⊢
+    obtain ⟨rfl, hq, rfl⟩ := hpc
+    simp [stepProc, hq, toDisk]
   | done r =>
     simp only [CallInv] at hpc ⊢
     simpa [stepProc] using hpc
@@ -398,6 +402,125 @@ theorem callInv_iter (h : Abs) (b : Beh) (n : Nat) (d : Disk) (pr : Proc) (hi : 
   induction n generalizing d pr with
   | zero => exact hi
   | succ n ih => exact ih _ _ (callInv_step h b d pr hi)
+
+/-! ### any number of processes, any schedule, crashes anywhere -/
+
+/-- what a process knows at each point about the profile it is going to store: it is the one its server sent,
+    and from `close` on its private temporary file holds exactly that profile, complete -/
+def ProcOK (pr : Proc) : Prop :=
+  match pr.pc with
+  | .parseResp _ b' => b' = pr.beh
+  | .assertCode0 _ _ p => ∀ q, p = some q → pr.beh = .profile q
+  | .serverDate _ p => ∀ q, p = some q → pr.beh = .profile q
+  | .assertDate _ q => pr.beh = .profile q
+  | .mkstemp q => pr.beh = .profile q
+  | .write q => pr.beh = .profile q ∧ pr.tmp = some []
+  | .close q => pr.beh = .profile q ∧ pr.tmp = some (ser q)
+  | .replace q => pr.beh = .profile q ∧ pr.tmp = some (ser q)
+  | .done r => r ≠ .error .parse
+  | _ => True
+
+/-- the cache file is absent or one complete profile: the one held initially or one a server sent to one of the
+    processes (`allowed`) -/
+def DiskOK (allowed : Profile → Prop) (h : Abs) (d : Disk) : Prop :=
+  ∃ h', d = toDisk h' ∧ (h' = h ∨ ∃ p, h' = some p ∧ allowed p)
+
+theorem procOK_step (allowed : Profile → Prop) (h : Abs) (d : Disk) (pr : Proc)
+    (hd : DiskOK allowed h d) (hp : ProcOK pr) (ha : ∀ q, pr.beh = .profile q → allowed q) :
+    ProcOK (stepProc d pr).2 ∧ DiskOK allowed h (stepProc d pr).1 ∧ (stepProc d pr).2.beh = pr.beh := by
+  obtain ⟨pc, beh, dry, sent, tmp⟩ := pr
+  obtain ⟨h', rfl, hh'⟩ := hd
+  have hdisk : DiskOK allowed h (toDisk h') := ⟨h', rfl, hh'⟩
+  cases pc with
+  | start => cases h' <;> simp [stepProc, toDisk, ProcOK] <;> exact hdisk
+  | readCache => cases h' <;> simp [stepProc, toDisk, ProcOK] <;> exact hdisk
+  | mkdir => simp [stepProc, ProcOK]; exact hdisk
+  | post held => cases dry <;> cases beh <;> simp [stepProc, ProcOK] <;> exact hdisk
+  | parseResp held b' =>
+    simp only [ProcOK] at hp; subst hp
+    cases b' <;> simp [stepProc, ProcOK] <;> exact hdisk
+  | assertCached held => cases held <;> simp [stepProc, ProcOK] <;> exact hdisk
+  | assertCode0 held is0 p =>
+    simp only [ProcOK] at hp
+    cases is0 <;> simp [stepProc, ProcOK]
+    · exact hdisk
+    · exact ⟨hp, hdisk⟩
+  | serverDate held p =>
+    simp only [ProcOK] at hp
+    cases p with
+    | none => simp [stepProc, ProcOK]; exact hdisk
+    | some q => simp [stepProc, ProcOK]; exact ⟨hp q rfl, hdisk⟩
+  | assertDate held q =>
+    simp only [ProcOK] at hp
+    cases held with
+    | none => simp [stepProc, ProcOK]; exact ⟨hp, hdisk⟩
+    | some r =>
+      by_cases hle : r.date ≤ q.date <;> simp [stepProc, ProcOK, hle]
+      · exact ⟨hp, hdisk⟩
+      · exact hdisk
+  | mkstemp q =>
+    simp only [ProcOK] at hp
+    simp [stepProc, ProcOK]; exact ⟨hp, hdisk⟩
+  | write q =>
+    simp only [ProcOK] at hp
+    obtain ⟨hb, rfl⟩ := hp
+    simp [stepProc, ProcOK]; exact ⟨hb, hdisk⟩
+  | close q =>
+    simp only [ProcOK] at hp
+    simp [stepProc, ProcOK]; exact ⟨hp, hdisk⟩
+  | replace q =>
+    simp only [ProcOK] at hp
+    obtain ⟨hb, rfl⟩ := hp
+    simp [stepProc, ProcOK]
+    exact ⟨some q, rfl, .inr ⟨q, rfl, ha q hb⟩⟩
+  | done r =>
+    simp only [ProcOK] at hp
+    simp [stepProc, ProcOK]; exact ⟨hp, hdisk⟩
+
+/-- invariant of a system of processes sharing the cache file -/
+def SysOK (h : Abs) (behs : List Beh) (s : Sys) : Prop :=
+  DiskOK (fun p => Beh.profile p ∈ behs) h s.disk ∧ ∀ pr ∈ s.procs, ProcOK pr ∧ pr.beh ∈ behs
+
+theorem sysOK_init (h : Abs) (behs : List Beh) : SysOK h behs ⟨toDisk h, behs.map (Proc.init ·)⟩ := by
+  refine ⟨⟨h, rfl, .inl rfl⟩, ?_⟩
+  intro pr hpr
+  simp only [List.mem_map] at hpr
+  obtain ⟨b, hb, rfl⟩ := hpr
+  exact ⟨by simp [ProcOK, Proc.init], by simpa [Proc.init] using hb⟩
+
+theorem sysOK_act (h : Abs) (behs : List Beh) (s : Sys) (a : Act) (hs : SysOK h behs s) : SysOK h behs (s.act a) := by
+  obtain ⟨hd, hp⟩ := hs
+  cases a with
+  | step i =>
+    simp only [Sys.act]
+    cases hi : s.procs[i]? with
+    | none => exact ⟨hd, hp⟩
+    | some pr =>
+      have hmem : pr ∈ s.procs := List.mem_of_getElem? hi
+      obtain ⟨hok, hbeh⟩ := hp pr hmem
+      obtain ⟨h1, h2, h3⟩ := procOK_step _ h s.disk pr hd hok (fun q hq => by rw [← hq]; exact hbeh)
+      refine ⟨h2, ?_⟩
+      intro x hx
+      rcases List.mem_or_eq_of_mem_set hx with hx | rfl
+      · exact hp x hx
+      · exact ⟨h1, by rw [h3]; exact hbeh⟩
+  | crash i =>
+    simp only [Sys.act]
+    cases hi : s.procs[i]? with
+    | none => exact ⟨hd, hp⟩
+    | some pr =>
+      have hmem : pr ∈ s.procs := List.mem_of_getElem? hi
+      refine ⟨hd, ?_⟩
+      intro x hx
+      rcases List.mem_or_eq_of_mem_set hx with hx | rfl
+      · exact hp x hx
+      · exact ⟨by simp [crashed, ProcOK], by simpa [crashed] using (hp pr hmem).2⟩
+
+theorem sysOK_run (h : Abs) (behs : List Beh) (sched : List Act) (s : Sys) (hs : SysOK h behs s) :
+    SysOK h behs (s.run sched) := by
+  induction sched generalizing s with
+  | nil => exact hs
+  | cons a rest ih => exact ih _ (sysOK_act h behs s a hs)
 
 /-! ### the file name -/
 
